@@ -22,7 +22,7 @@ theorem implicit_iff (a : Arg) (k : Assign) (h : argumentKind a = .ok k) : (k !=
       | (simp only [Except.ok.injEq] at h; subst h; rfl)
       | cases h
 
-theorem forall₂_names {env : AEnv} {f : FuncDef} {fid : String} : ∀ {args : List Arg} {ps : List Parameter},
+theorem explicit_arg_names {env : AEnv} {f : FuncDef} {fid : String} : ∀ {args : List Arg} {ps : List Parameter},
     List.Forall₂ (fun (a : Arg) (p : Parameter) => ∃ s1 s2, parseParameter env f fid a s1 = .ok (p, s2)) args ps →
     (Spec.receiverRemoved ps).map (·.name) = (explicitArgs args).map (·.name)
   | [], [], _ => rfl
@@ -30,7 +30,7 @@ theorem forall₂_names {env : AEnv} {f : FuncDef} {fid : String} : ∀ {args : 
     rw [List.forall₂_cons] at h
     obtain ⟨⟨s1, s2, hp⟩, hrest⟩ := h
     obtain ⟨hn, _, hk, _⟩ := C06a.parseParameter_fields env f fid a s1 s2 p hp
-    have ih := forall₂_names hrest
+    have ih := explicit_arg_names hrest
     unfold Spec.receiverRemoved explicitArgs at *
     simp only [List.filter_cons, implicit_iff a p.assignedBy hk]
     cases (a.isSelf || a.isCls) with
@@ -54,7 +54,7 @@ theorem def_to_stub_parameters (env : AEnv) (f : FuncDef) (fid : String) (s s' :
       outs.map (·.annotation) = (explicitArgs f.args).map (fun a =>
         if convertName a.name genv.safe ≠ a.name then nameAnnotation a.name ++ " " else "") := by
   obtain ⟨outs, _, hpairs, htext⟩ := C06.params_match_spec genv ps indent isInst gst gst' text h2 hwf
-  have hnames := forall₂_names (C06a.parseParameters_pointwise env f fid f.args s s' ps h1)
+  have hnames := explicit_arg_names (C06a.parseParameters_pointwise env f fid f.args s s' ps h1)
   refine ⟨outs, htext, ?_, ?_⟩
   · have := congrArg (List.map Prod.snd) hpairs
     simp only [List.map_map, Function.comp_def, Spec.paramName] at this
